@@ -3,8 +3,10 @@ import BreezyVerif.Model.C11
 /-
 C11 driver.
 
-  add <fmt B|G|H> <recurse T|F> <names> <layout>      (H = git tree whose smart_add refuses control files)
+  add <fmt B|G|H|Gs|Hs> <recurse T|F> <names> <skip> <layout>
+     fmt: H = git tree whose smart_add refuses control files; suffix s = git smart_add calls action.skip_file
      names  = tree-relative paths joined by `,` (`.` = the tree root)
+     skip   = the paths for which the action's skip_file answers True, joined by `,` (`-` = none)
      layout = as in the C46 driver: entries joined by `;` (parents first, `-` = empty),
               entry = `<path>|<kind f|d|D|l>|<flags versioned ignored valid helper>`
      reply  = `ok <newly versioned paths, sorted, joined by ;>` (`-` = none) | `E:<error>`
@@ -43,24 +45,27 @@ def showPaths (ps : List Path) : String :=
   let l := (ps.map joinPath).mergeSort (fun a b => decide (a ≤ b))
   if l.isEmpty then "-" else ";".intercalate l
 
-def parseFmt (s : String) : Option (Fmt × Bool) :=
-  if s == "B" then some (.bzr, false) else if s == "G" then some (.git, false)
-  else if s == "H" then some (.git, true) else none
+def parseFmt (s : String) : Option (Fmt × Bool × Bool) :=
+  if s == "B" then some (.bzr, false, false) else if s == "G" then some (.git, false, false)
+  else if s == "H" then some (.git, true, false) else if s == "Gs" then some (.git, false, true)
+  else if s == "Hs" then some (.git, true, true) else none
 
 def Err.toString : Err → String
   | .forbiddenControlFile => "E:ForbiddenControlFile"
   | .noSuchFile => "E:NoSuchFile"
 
 def handle : List String → String
-  | ["add", fmt, rec, names, layout] =>
-    match parseFmt fmt, parseBool rec, (names.splitOn ",").mapM parsePath, parseLayout layout with
-    | some (fmt, refuse), some rec, some names, some f =>
-      match smartAdd { fmt := fmt, names := names, recurse := rec, gitRefusesCtl := refuse } f with
+  | ["add", fmt, rec, names, skip, layout] =>
+    match parseFmt fmt, parseBool rec, (names.splitOn ",").mapM parsePath,
+        (if skip == "-" then some [] else (skip.splitOn ",").mapM parsePath), parseLayout layout with
+    | some (fmt, refuse, gskips), some rec, some names, some skip, some f =>
+      match smartAdd { fmt := fmt, names := names, recurse := rec, gitRefusesCtl := refuse, skip := skip,
+                       gitSkips := gskips } f with
       | .error e => e.toString
       | .ok f' =>
         let before := versionedPaths f
         "ok " ++ showPaths ((versionedPaths f').filter fun p => !before.contains p)
-    | _, _, _, _ => "bad-op"
+    | _, _, _, _, _ => "bad-op"
   | _ => "bad-op"
 
 end BreezyVerif.C11
